@@ -1,18 +1,17 @@
 #!/bin/sh
-# ./seedwave.sh C01 C02 ... : evaluates /tmp/seed-<ID>/out/{A,B} with seedtest.py (sequentially).
+# ./seedwave.sh <prefix> C01 C02 ... : evaluates /tmp/<prefix>-<ID>/out/{A,B} with seedtest.py (sequentially).
+prefix=$1; shift
 for p in "$@"; do
   for v in A B; do
-    d=/tmp/seed-$p/out/$v
+    d=/tmp/$prefix-$p/out/$v
     [ -f $d/patch.diff ] || continue
     echo "=== $p/$v"
-    /verif/seedtest.py $d $p 2>&1 | python3 -c "
+    /verif/seedtest.py $d $p > /dev/null 2>&1
+    tail -1 /verif/seeded_log.jsonl | python3 -c "
 import sys,json
-t=sys.stdin.read()
-try:
-    r=json.loads(t[t.index('{'):])
-    print({k:r.get(k) for k in ['demo_unchanged_pass','patch_applies','builds','demo_with_patch_fails','suite_passes']}, [(x['check'],x['caught'],x['wall_s'],x['first'][:160]) for x in r.get('results',[])])
-except Exception as e:
-    print('ERR',e,t[-800:])
+r=json.loads(sys.stdin.read())
+print({k:r.get(k) for k in ['demo_mode','demo_unchanged_pass','patch_applies','builds','demo_with_patch_fails','suite_passes']}, [(x['check'],x['caught'],x['wall_s'],x['first'][:200]) for x in r.get('results',[])])
+if r.get('demo_unchanged_pass') is False: print('  unchanged demo output:', r.get('demo_unchanged_output','')[-400:])
 "
   done
 done
